@@ -278,7 +278,7 @@ def oracle(ctx, extra):
         if check_html(m, name, plugins, doc, r.random() < 0.75, r.random() < 0.25, fails):
             n += 1
             seen.add(doc)
-        if i % 9 == 5:
+        if i % 4 == 1:
             # tables of contents (directive, either style) for any sequence of heading levels: the nesting of the generated list
             style = r.choice(["fenced", "rst"])
             d3 = gen_docs.toc_doc(r, style)
